@@ -19,6 +19,9 @@ use std::sync::Mutex;
 const GIVE_UP: usize = 5;
 
 fn family(id: &str) -> &str {
+    if id == "()" {
+        return "unit";
+    }
     id.split('(').next().unwrap_or(id)
 }
 fn panic_site(p: &str) -> String {
@@ -1059,7 +1062,10 @@ fn expect_next(d: &Desc, r: &[u8], c: usize) -> Vec<Verdict> {
         let x = match v {
             Ok((val, ext)) => Verdict::Msg(val.clone(), *ext),
             Err(Reject::Content { .. }) => Verdict::Parse,
-            Err(Reject::Framing { .. }) => Verdict::AnyError,
+            // the chain of a FlexVec contradicts itself (an item that cannot fit its sealed slot, an offset smaller
+            // than a slot, a misaligned offset): the message is complete as far as its own framing goes and no
+            // further input can repair it — the last clause of C10 asks for a parse error, not for more input
+            Err(Reject::Framing { .. }) => Verdict::Parse,
             Err(Reject::Short) => unreachable!(),
         };
         if !out.contains(&x) {
